@@ -339,11 +339,37 @@ static void run_regex_jump_sweep(Stats& st, std::set<std::string>& reported) {
   if (!library_usable()) emit_c15("unusable-after-limit", "boundary|regex-jump-sweep|library-unusable-afterwards", "follow-up compile+scan failed", rp, reported, st);
 }
 
+
+// Loops whose range ends at the largest integer: the iteration must end (no timeout is set: a hang here is a hang
+// in real life) and the quantifier must see exactly the values of the range.
+static void run_loop_int64_max(Stats& st, std::set<std::string>& reported) {
+  J rp = J::obj(); rp.set("engine", "sim_clock"); rp.set("mode", "limits"); rp.set("boundary", "@loop-int64-max");
+  struct K { const char* cond; bool expect; };
+  static const K ks[] = {
+    {"for any i in (9223372036854775806..9223372036854775807) : ( i == 5 )", false},
+    {"for all i in (9223372036854775806..9223372036854775807) : ( i > 0 )", true},
+    {"for 2 i in (9223372036854775805..9223372036854775807) : ( i % 2 == 1 )", true},
+    {"for any i in (9223372036854775807..9223372036854775807) : ( i == 9223372036854775807 )", true},
+    {"for any i in (0..filesize) : ( i == filesize )", true},
+  };
+  for (auto& k : ks) {
+    YR_RULES* r = compile_simple(std::string("rule x { condition: ") + k.cond + " }");
+    IsoResult iso = sim_isolate([&] { Recorder rec; std::string b = "abc"; int rc = yr_rules_scan_mem(r, (const uint8_t*) b.data(), b.size(), 0, recorder_callback, &rec, 0); iso_emit(std::string(yr_error_name(rc)) + (rec.text.find("MATCH default:x") == 0 || rec.text.find("\nMATCH default:x") != std::string::npos ? " match" : " nomatch")); }, 20);
+    st.runs++; st.c["boundary.loop-int64-max"]++; Hash64 h; h.add("l64"); h.add(k.cond); st.hash(h.h);
+    std::string at = std::string(k.cond) + ": ";
+    if (iso.kind == 3) emit_c15("hang", "boundary|loop-int64-max|does-not-terminate", at + "the scan (no timeout set) was still running after 20 s", rp, reported, st);
+    else if (iso.kind != 0) emit_c15("limit-memory-error", "boundary|loop-int64-max|" + sim_crash_signature(iso).substr(0, 60), at + iso.err.substr(0, 800), rp, reported, st);
+    else if (iso.out != std::string("SUCCESS ") + (k.expect ? "match" : "nomatch")) emit_c15("limit-changes-result", "boundary|loop-int64-max|wrong-verdict", at + "got '" + iso.out + "', the range semantics give " + (k.expect ? "match" : "nomatch"), rp, reported, st);
+    yr_rules_destroy(r);
+  }
+}
+
 static void run_boundaries(Stats& st, std::set<std::string>& reported, const std::string& only = "") {
   if (only.empty() || only == "@scanner-after-limit") run_scanner_after_limit(st, reported);
   if (only.empty() || only == "@stack-sweep") run_stack_sweep(st, reported);
   if (only.empty() || only == "@slow-warning") run_slow_warning(st, reported);
   if (only.empty() || only == "@regex-jump-sweep") run_regex_jump_sweep(st, reported);
+  if (only.empty() || only == "@loop-int64-max") run_loop_int64_max(st, reported);
   if (!only.empty() && only[0] == '@') return;
   std::vector<Lim> lims;
   lims.push_back({"loop-nesting", YR_MAX_LOOP_NESTING, [](int n, int& e, int& le, int& rc) { std::string c = "true"; for (int i = n; i >= 1; i--) c = "for any v" + std::to_string(i) + " in (0..1) : ( " + c + " )"; e = compile_err("rule x { condition: " + c + " }", le); rc = 0; }, {ERROR_LOOP_NESTING_LIMIT_EXCEEDED}});
